@@ -229,6 +229,9 @@ def install(reg):
     # teardown on the I/O thread: under outbuf_lock it drops the backlog, clears `connected` and wakes a producer that is paused on the
     # watermark (whatever the backlog was: a paused producer must always learn that the client is gone); then the descriptor is closed
     reg.add(FuncContract("wasyncore.dispatcher.close", raises=["OSError"], modifies=[], cls=CH, check_invariant=False))
+    # a worker that takes outbuf_lock right after the teardown (write_soon with a file wrapper, C09) must see the channel as gone:
+    # `connected` is cleared and the backlog dropped BEFORE the lock is released, not later in dispatcher.close()
+    HANDLE_CLOSE_AT_RELEASE = {"outbuf_lock": [("C09-disconnected-before-the-lock-is-released", "not self.connected and self.total_outbufs_len == 0")]}
     # on a worker do_close is false (R4), so the teardown branch of send() is dead there: that IS the role frame
     reg.funcs["wasyncore.dispatcher.send"].unreachable_ok_by_role = {"W": ("self.handle_close()",)}
     reg.add(FuncContract(CH + ".handle_close", requires=[("io", "role_is('IO')")], raises=["OSError"], setup=alias,
@@ -238,6 +241,7 @@ def install(reg):
                      ("W5-close-wakes-a-paused-producer", "notified('outbuf_lock')")],
         loops={0: LoopSpec(invariants=[("lock", "holds('outbuf_lock')")] + OUT_INV)},
         modifies=["self.connected", "self.total_outbufs_len"], check_invariant=False))
+    reg.funcs[CH + ".handle_close"].at_release = HANDLE_CLOSE_AT_RELEASE
 
     reg.add(FuncContract(CH + "._flush_some", params={"do_close": Bool}, returns=Bool, requires=[R4, R3], raises=["OSError"], setup=alias,
         entry_holds={"W": ["outbuf_lock"], "IOL": ["outbuf_lock"]},
